@@ -483,16 +483,21 @@ Definition gen_step (n e : mname) : mname :=
 (** [existing] in the order in which the map iteration happened to visit it *)
 Definition get_existing_name_legacy (existing : list mname) (n : mname) : mname := fold_left gen_step existing n.
 
-(** repaired getExistingName (fixes/C04-getExistingName.patch, semantics in notes/C04.md): the stored name with the longest
-    case-insensitive prefix match (host, namespace, model, tag), the bytewise smallest String() on ties,
-    supplies all canonicalised parts *)
-Definition fold_prefix_len (e n : mname) : nat :=
-  if negb (equal_fold_au (mH e) (mH n)) then 0
-  else if negb (equal_fold_au (mN e) (mN n)) then 1
-  else if negb (equal_fold_au (mM e) (mM n)) then 2
-  else if negb (equal_fold_au (mT e) (mT n)) then 3
-  else 4.
-(** strings.Compare *)
+(** repaired getExistingName (fixes/C04-getExistingName.patch, owned by C04): for every stored name [e] the candidate
+    is [n] with its first [k] parts taken from [e], [k] = number of leading parts (host, namespace, model, tag) that
+    are EqualFold; the candidate with the largest [k] wins, among equally long matches (k > 0) the one whose
+    String() is bytewise smallest; with no match the input is returned. *)
+Definition gen_cand (n e : mname) : mname * nat :=
+  if equal_fold_au (mH e) (mH n) then
+    if equal_fold_au (mN e) (mN n) then
+      if equal_fold_au (mM e) (mM n) then
+        if equal_fold_au (mT e) (mT n) then (MkM (mH e) (mN e) (mM e) (mT e), 4%nat)
+        else (MkM (mH e) (mN e) (mM e) (mT n), 3%nat)
+      else (MkM (mH e) (mN e) (mM n) (mT n), 2%nat)
+    else (MkM (mH e) (mN n) (mM n) (mT n), 1%nat)
+  else (n, 0%nat).
+
+(** strings.Compare / the string order of Go *)
 Fixpoint str_cmp (a b : str) : comparison :=
   match a, b with
   | [], [] => Eq
@@ -500,30 +505,16 @@ Fixpoint str_cmp (a b : str) : comparison :=
   | _, [] => Gt
   | x :: a', y :: b' => match N.compare x y with Eq => str_cmp a' b' | c => c end
   end.
-(** ties are broken by the bytewise smallest String() (notes/C04.md) *)
-Definition m_lt (a b : mname) : bool := match str_cmp (m_string a) (m_string b) with Lt => true | _ => false end.
+Definition str_ltb (a b : str) : bool := match str_cmp a b with Lt => true | _ => false end.
 
-Definition gen_better (n : mname) (best : option mname) (e : mname) : option mname :=
-  let l := fold_prefix_len e n in
-  if (l =? 0)%nat then best
-  else match best with
-       | None => Some e
-       | Some b =>
-           let lb := fold_prefix_len b n in
-           if (lb <? l)%nat || ((lb =? l)%nat && m_lt e b) then Some e else best
-       end.
-Definition gen_best (existing : list mname) (n : mname) : option mname := fold_left (gen_better n) existing None.
+(** the body of [for e := range existing] *)
+Definition gen_pick (n : mname) (acc : mname * nat) (e : mname) : mname * nat :=
+  let '(best, bl) := acc in
+  let '(c, k) := gen_cand n e in
+  if (bl <? k)%nat || ((k =? bl)%nat && (0 <? k)%nat && str_ltb (m_string c) (m_string best)) then (c, k) else acc.
+
+(** [existing] in the order in which the map iteration happened to visit it *)
 Definition get_existing_name (existing : list mname) (n : mname) : mname :=
-  match gen_best existing n with
-  | None => n
-  | Some b =>
-      let l := fold_prefix_len b n in
-      MkM (mH b) (if (2 <=? l)%nat then mN b else mN n) (if (3 <=? l)%nat then mM b else mM n) (if (4 <=? l)%nat then mT b else mT n)
-  end.
+  fst (fold_left (gen_pick n) existing (n, 0%nat)).
 
-(** what a lookup through the legacy store does next: ParseNamedManifest opens manifests/<Filepath>; it finds a
-    model iff exactly that name is stored (case-sensitive file system) *)
 Definition m_eqb (a b : mname) : bool := eqb_str (mH a) (mH b) && eqb_str (mN a) (mN b) && eqb_str (mM a) (mM b) && eqb_str (mT a) (mT b).
-Definition stored (existing : list mname) (n : mname) : bool := existsb (m_eqb n) existing.
-Definition lookup_with (canon : list mname -> mname -> mname) (existing : list mname) (n : mname) : option mname :=
-  let c := canon existing n in if stored existing c then Some c else None.
